@@ -4,7 +4,7 @@
      split_lines       github.com/sergi/go-diff v1.0.0  diffmatchpatch.diffLinesToRunesMunge, the line
                        splitting inside DiffLinesToRunes (FileDiff.Consume takes len(src), len(dst) of its
                        result as OldLinesOfCode / NewLinesOfCode)
-     strip_whitespace  internal/plumbing/diff.go        stripWhitespace (strings.Replace(str, " ", "", -1))
+     remove_spaces  internal/plumbing/diff.go        stripWhitespace (strings.Replace(str, " ", "", -1))
 
    A blob is a list of bytes, a byte is a Z in 0..255 (nothing below depends on the range).
    Definitions only; the proofs are in LineCountProofs.v. *)
@@ -121,17 +121,15 @@ Definition diff_lines_to_runes (a b : bytes) : list nat * list nat :=
 (* ---------------------------------------------------------------- stripWhitespace *)
 
 (* strings.Replace(str, " ", "", -1): every byte 0x20 is removed, wherever it is; tabs, CR and every other byte stay *)
-Definition strip_whitespace (b : bytes) : bytes := filter (fun c => negb (is_sp c)) b.
+Definition remove_spaces (b : bytes) : bytes := filter (fun c => negb (is_sp c)) b.
 
-Definition strip (ignore_whitespace : bool) (b : bytes) : bytes :=
-  if ignore_whitespace then strip_whitespace b else b.
-
-(* Candidate repair of finding F9 (NOT what the code does today; see docs/C11.md): a last line made of spaces only
-   is kept as one space, so that it stays a line.
+(* stripWhitespace as it is since commit 3944bd2 (repair of finding F9): a last line made of spaces only is kept
+   as one space, so that it stays a line.
+     response := strings.Replace(str, " ", "", -1)
      if n := len(str); n > 0 && str[n-1] == ' ' && (len(response) == 0 || response[len(response)-1] == '\n') {
          response += " " } *)
-Definition strip_whitespace_fixed (b : bytes) : bytes :=
-  let r := strip_whitespace b in
+Definition strip_whitespace (b : bytes) : bytes :=
+  let r := remove_spaces b in
   match last_byte b with
   | Some c =>
       if is_sp c then
@@ -143,9 +141,23 @@ Definition strip_whitespace_fixed (b : bytes) : bytes :=
   | None => r
   end.
 
+Definition strip (ignore_whitespace : bool) (b : bytes) : bytes :=
+  if ignore_whitespace then strip_whitespace b else b.
+
 (* What FileDiff.Consume reports as OldLinesOfCode / NewLinesOfCode for a blob *)
 Definition diff_loc (ignore_whitespace : bool) (b : bytes) : nat :=
   length (split_lines (strip ignore_whitespace b)).
+
+(* stripWhitespace before that commit (kept to state what was wrong: theorems named ..._before_fix) *)
+Definition strip_before_fix (ignore_whitespace : bool) (b : bytes) : bytes :=
+  if ignore_whitespace then remove_spaces b else b.
+Definition diff_loc_before_fix (ignore_whitespace : bool) (b : bytes) : nat :=
+  length (split_lines (strip_before_fix ignore_whitespace b)).
+
+(* FileDiff.Consume since commit 742df3d: line identifiers (runes) at or above 0xD800 are shifted by 0x800, because
+   diffmatchpatch turns rune slices into strings, where every UTF-16 surrogate becomes U+FFFD.  The identifiers are
+   not visible in FileDiffData (the consumers use rune counts only); see LineCountProofs.shift_id_spec. *)
+Definition shift_id (id : Z) : Z := if (55296 <=? id)%Z then (id + 2048)%Z else id.
 
 (* The part of the blob after its last '\n' (the whole blob when there is none) *)
 Definition has_nl (b : bytes) : bool := existsb is_nl b.
@@ -155,7 +167,7 @@ Fixpoint last_seg (b : bytes) : bytes :=
   | c :: r => if is_nl c then last_seg r else if has_nl r then last_seg r else c :: r
   end.
 
-(* "the last line is not empty and consists of spaces only": the blobs hit by finding F9 *)
+(* "the last line is not empty and consists of spaces only": the blobs that finding F9 was about *)
 Definition last_blank (b : bytes) : bool :=
   match last_seg b with
   | [] => false
